@@ -276,7 +276,10 @@ class Scheduler:
         return tid
 
     async def cancel_task(self, tid):
-        if self.task_states[tid] in (LocalStatus.SUBMITTED, LocalStatus.RUNNING):
+        # A client may ask for a task this pool has never heard of, e.g. one
+        # accepted by a pool that has since been restarted. There is nothing to
+        # cancel then, and the rest of the client's requests must still be served.
+        if self.task_states.get(tid) in (LocalStatus.SUBMITTED, LocalStatus.RUNNING):
             worker_task = self.tasks[tid]
             worker_task.cancel()
             self.task_states[tid] = LocalStatus.CANCELLED
